@@ -97,8 +97,18 @@ fn gen_val(g: &mut Gen) -> Value {
         _ => Value::Array(vec![Value::Bool(g.bool())]),
     }
 }
+/// A counter-signature as a decoder yields it: its protected header retains (non-canonical) wire bytes.
+fn decoded_countersig() -> CoseSignature {
+    CoseSignature {
+        protected: ProtectedHeader { original_data: Some(vec![0xa1, 0x18, 0x01, 0x26]), header: Header { alg: Some(Algorithm::Assigned(iana::Algorithm::ES256)), ..Default::default() } },
+        unprotected: Header::default(),
+        signature: vec![0x5e],
+    }
+}
+
 fn hdr_palette() -> Vec<Header> {
     vec![
+        Header { counter_signatures: vec![decoded_countersig()], ..Default::default() },
         Header::default(),
         Header { key_id: vec![9], ..Default::default() },
         Header { alg: Some(Algorithm::Assigned(iana::Algorithm::ES256)), iv: vec![1, 2], rest: vec![(Label::Int(99), Value::from(1))], ..Default::default() },
@@ -106,7 +116,8 @@ fn hdr_palette() -> Vec<Header> {
 }
 fn gen_hdr(g: &mut Gen) -> Header {
     if g.ratio(1, 2) {
-        return hdr_palette()[g.below(3)].clone();
+        let p = hdr_palette();
+        return p[g.below(p.len())].clone();
     }
     let mut h = Header::default();
     if g.bool() {
@@ -120,6 +131,12 @@ fn gen_hdr(g: &mut Gen) -> Header {
     }
     if g.bool() {
         h.rest.push((Label::Text(g.text()), gen_val(g)));
+    }
+    if g.ratio(1, 4) {
+        h.counter_signatures.push(decoded_countersig());
+        if g.bool() {
+            h.counter_signatures.push(CoseSignature { protected: ProtectedHeader { original_data: Some(vec![0xbf, 0xff]), header: Header::default() }, ..Default::default() });
+        }
     }
     h
 }
@@ -291,8 +308,9 @@ enum MOp {
 fn mop_common_palette() -> Vec<MOp> {
     vec![
         MOp::Protected(hdr_palette()[0].clone()),
-        MOp::Protected(hdr_palette()[2].clone()),
-        MOp::Unprotected(hdr_palette()[1].clone()),
+        MOp::Protected(hdr_palette()[1].clone()),
+        MOp::Protected(hdr_palette()[3].clone()),
+        MOp::Unprotected(hdr_palette()[2].clone()),
         MOp::Content(vec![]),
         MOp::Content(vec![7, 7]),
     ]
@@ -916,7 +934,7 @@ impl Spec for SuppSpec {
     type Out = SuppPubInfo;
     const NAME: &'static str = "SuppPubInfoBuilder";
     fn palette() -> Vec<SOp> {
-        vec![SOp::KeyDataLength(0), SOp::KeyDataLength(128), SOp::KeyDataLength(u64::MAX), SOp::Protected(hdr_palette()[0].clone()), SOp::Protected(hdr_palette()[2].clone()), SOp::Other(vec![]), SOp::Other(vec![1])]
+        vec![SOp::KeyDataLength(0), SOp::KeyDataLength(128), SOp::KeyDataLength(u64::MAX), SOp::Protected(hdr_palette()[0].clone()), SOp::Protected(hdr_palette()[1].clone()), SOp::Protected(hdr_palette()[3].clone()), SOp::Other(vec![]), SOp::Other(vec![1])]
     }
     fn gen_op(g: &mut Gen) -> SOp {
         match g.below(3) {
@@ -967,7 +985,7 @@ impl Spec for KdfSpec {
             DOp::PartyU(vec![]),
             DOp::PartyV(vec![POp::NonceInt(5), POp::Other(vec![2])]),
             DOp::Supp(vec![SOp::KeyDataLength(128)]),
-            DOp::Supp(vec![SOp::Protected(hdr_palette()[1].clone()), SOp::Other(vec![9])]),
+            DOp::Supp(vec![SOp::Protected(hdr_palette()[2].clone()), SOp::Other(vec![9])]),
             DOp::AddPriv(vec![]),
             DOp::AddPriv(vec![7]),
         ]
